@@ -993,7 +993,7 @@ def ser_check(prop, tier, seed):
             j.update(ser_params(rnd, prop, k))
             jobs.append(j)
             counts["random"] += 1
-    # the 75 "scope exit" documents of the parser checks as trees: a binding made or shadowed on an inner element and the
+    # the "scope exit" documents of the parser checks as trees: a binding made or shadowed on an inner element and the
     # same prefix (or the default namespace) used again behind it with its outer meaning
     import xmlgen as X
     for doc in X.scope_exit_docs():
